@@ -72,7 +72,7 @@ def state_names(style, var, card):
     raise ValueError(style)
 
 
-STATE_STYLES = ["default", "str", "permint", "mixed", "tuple", "shared"]
+STATE_STYLES = ["default", "str", "permint", "mixed", "tuple", "shared", "permrange"]
 
 
 def relabel(desc):
